@@ -248,6 +248,50 @@ Proof.
   rewrite Hs, Hx. apply b_lift_sim; [exact H|]. apply (rr_skip _ _ _ Hops), Hi.
 Qed.
 
+Lemma framed_read_sim {R1 R2} (rho : R1 -> R2 -> Prop) o1 o2
+      (d1 : Bounded R1 -> res val (Bounded R1)) (d2 : Bounded R2 -> res val (Bounded R2)) :
+  rops_rel rho o1 o2 ->
+  (forall b1 b2, brel rho b1 b2 -> rel_res (brel rho) (d1 b1) (d2 b2)) ->
+  forall r1 r2, rho r1 r2 -> rel_res rho (framed_read o1 d1 r1) (framed_read o2 d2 r2).
+Proof.
+  intros Hops Hd r1 r2 Hr. unfold framed_read.
+  apply rel_bind; [apply read_u64_sim; assumption|]. intros sz y1 y2 Hy.
+  assert (Hb : brel rho (b_make y1 sz) (b_make y2 sz))
+    by (unfold brel, b_make, b_inner, b_size, b_index; cbn; auto).
+  pose proof (Hd _ _ Hb) as H.
+  destruct (d1 (b_make y1 sz)) as [v1 c1|e1 c1], (d2 (b_make y2 sz)) as [v2 c2|e2 c2];
+    cbn in H; try contradiction.
+  - destruct H as [-> Hc].
+    pose proof (bounded_read_padding_sim rho o1 o2 c1 c2 Hops Hc) as Hp.
+    destruct (bounded_read_padding o1 c1), (bounded_read_padding o2 c2);
+      cbn in Hp |- *; try contradiction; destruct Hp as [He Hp];
+      (split; [first [reflexivity|exact He]|apply Hp]).
+  - destruct H as [-> Hc]. cbn. split; auto. apply Hc.
+Qed.
+
+Lemma find_entry_sim {R1 R2} (rho : R1 -> R2 -> Prop) o1 o2 id
+      (es1 : list (N * bool * (R1 -> res val R1))) (es2 : list (N * bool * (R2 -> res val R2))) :
+  rops_rel rho o1 o2 ->
+  Forall2 (fun (e1 : N * bool * (R1 -> res val R1)) (e2 : N * bool * (R2 -> res val R2)) =>
+             fst e1 = fst e2 /\
+             forall r1 r2, rho r1 r2 -> rel_res rho (snd e1 r1) (snd e2 r2)) es1 es2 ->
+  forall slots r1 r2, rho r1 r2 ->
+  rel_res rho (find_entry o1 id es1 slots r1) (find_entry o2 id es2 slots r2).
+Proof.
+  intros Hops H. induction H as [|[[eid1 act1] rd1] [[eid2 act2] rd2] es1' es2' [He Hrd] _ IH];
+    intros slots r1 r2 Hr; cbn [find_entry].
+  - apply rel_bind; [apply skip_entry_sim; assumption|]. intros; apply rel_ok; assumption.
+  - cbn [fst snd] in He, Hrd. injection He as -> ->.
+    destruct slots as [|sl slots'].
+    + apply rel_bind; [apply skip_entry_sim; assumption|]. intros; apply rel_ok; assumption.
+    + destruct (eid2 =? id).
+      * destruct act2.
+        -- destruct sl; try (apply rel_err; exact Hr).
+           apply rel_bind; [apply Hrd; exact Hr|]. intros; apply rel_ok; assumption.
+        -- apply rel_bind; [apply skip_entry_sim; assumption|]. intros; apply rel_ok; assumption.
+      * apply rel_bind; [apply IH; exact Hr|]. intros; apply rel_ok; assumption.
+Qed.
+
 (* ---- the logical-relation lemma for Encoding<T>::ReadPayload ---------------- *)
 Theorem decp_sim : forall (t : ty) (p : N) (R1 R2 : Type) (rho : R1 -> R2 -> Prop)
                           (o1 : rops R1) (o2 : rops R2),
@@ -329,34 +373,10 @@ Proof.
     apply rel_bind; [|intros; apply rel_ok; assumption].
     apply loop_res_sim; [|exact Hu]. intros slots w1 w2 Hw.
     apply rel_bind; [apply read_u64_sim; assumption|]. intros id x1 x2 Hx.
-    revert slots x1 x2 Hx.
-    induction H as [|[[eid act] t'] es' Ht' _ IHes]; intros slots x1 x2 Hx.
-    + apply rel_bind; [apply skip_entry_sim; assumption|]. intros; apply rel_ok; assumption.
-    + destruct slots as [|sl slots'].
-      * apply rel_bind; [apply skip_entry_sim; assumption|]. intros; apply rel_ok; assumption.
-      * destruct (eid =? id).
-        -- destruct act.
-           ++ destruct sl; try (apply rel_err; exact Hx).
-              apply rel_bind; [apply read_u64_sim; assumption|]. intros sz y1 y2 Hy.
-              cbn [snd] in Ht'.
-              assert (Hb : brel rho (b_make y1 sz) (b_make y2 sz))
-                by (unfold brel, b_make, b_inner, b_size, b_index; cbn; auto).
-              pose proof (bounded_rops_rel rho o1 o2 Hops) as Hbops.
-              pose proof (dec_with_sim (brel rho) (bounded_rops o1) (bounded_rops o2) Hbops
-                            (tmatch t')
-                            (fun p b => decp t' p (Bounded R1) (bounded_rops o1) b)
-                            (fun p b => decp t' p (Bounded R2) (bounded_rops o2) b)
-                            (b_make y1 sz) (b_make y2 sz)
-                            (fun p b1 b2 Hbb => Ht' p _ _ (brel rho) _ _ Hbops b1 b2 Hbb) Hb) as Hd.
-              destruct (dec_with (bounded_rops o1) _ _ (b_make y1 sz)) as [v1 c1|e1 c1],
-                       (dec_with (bounded_rops o2) _ _ (b_make y2 sz)) as [v2 c2|e2 c2];
-                cbn in Hd; try contradiction.
-              ** destruct Hd as [-> Hc].
-                 pose proof (bounded_read_padding_sim rho o1 o2 c1 c2 Hops Hc) as Hp.
-                 destruct (bounded_read_padding o1 c1), (bounded_read_padding o2 c2);
-                   cbn in Hp |- *; try contradiction; destruct Hp as [He Hp];
-                   (split; [first [reflexivity|exact He]|apply Hp]).
-              ** destruct Hd as [-> Hc]. cbn. split; auto. apply Hc.
-           ++ apply rel_bind; [apply skip_entry_sim; assumption|]. intros; apply rel_ok; assumption.
-        -- apply rel_bind; [apply IHes; exact Hx|]. intros; apply rel_ok; assumption.
+    apply find_entry_sim; [assumption| |exact Hx].
+    clear -H Hops. induction H as [|[[eid act] t'] es' Ht' _ IHes]; cbn [map]; constructor; auto.
+    cbn [fst snd] in *. split; [reflexivity|]. intros y1 y2 Hy.
+    pose proof (bounded_rops_rel rho o1 o2 Hops) as Hbops.
+    apply framed_read_sim; [assumption| |exact Hy]. intros b1 b2 Hb.
+    apply dec_with_sim; [exact Hbops| |exact Hb]. intros p c1 c2 Hc. apply Ht'; assumption.
 Qed.
